@@ -21,7 +21,7 @@ Q = {
     # cell / face reader
     "f2c": ("cell", lambda m, c, f: c.face_to_cells(f), lambda r, s, f: r.face_to_cells(f), "set"),
     "c2f": ("cell", lambda m, c, x: c.cell_to_face(x), lambda r, s, x: r.cell_to_face(x), "exact"),
-    "c2c": ("cell", lambda m, c, x: c.cell_to_cell(x), lambda r, s, x: r.cell_to_cell(x), "exact"),
+    "c2c": ("cell", lambda m, c, x: c.cell_to_cell(x), lambda r, s, x: r.cell_to_cell(x), "set"),  # no order is stated
     "v2c": ("cell", lambda m, c, v: c.vertex_to_cell(v), lambda r, s, v: r.vertex_to_cell(v), "set"),
     "c2v": ("cell", lambda m, c, x: c.cell_to_vertex(x), lambda r, s, x: list(r.cells[x]), "exact"),
     "c2e": ("cell", lambda m, c, x: c.cell_to_edge(x), lambda r, s, x: r.cell_to_edge(x), "set"),
